@@ -110,7 +110,7 @@ def run_case(case):
         if kind == "F":
             name = list(FUNCS)[int(rng.integers(0, len(FUNCS)))]
             scale = 1.0 / dt
-            f = FunctionSignal(t, _scaled(name, scale), vt)
+            f = FunctionSignal(t, _scaled(name, scale, scalar_only=bool(rng.random() < 0.3)), vt)
             defn[id(f)] = [(name, scale, 1.0, 0.0)]
             if rng.random() < 0.3 and N >= 2:
                 f.filter_frequencies(lambda fr: 1 / (1 + 1j * fr * dt), force_real=True)
@@ -364,8 +364,11 @@ def run_case(case):
     return r
 
 
-def _scaled(name, scale):
+def _scaled(name, scale, scalar_only=False):
     f = FUNCS[name]
+    if scalar_only:
+        # a function written for one time at a time (float() of an array with several elements raises TypeError)
+        return lambda ts: float(f(float(ts) * scale))
     return lambda ts: f(np.asarray(ts) * scale)
 
 
